@@ -7,6 +7,12 @@ ROOT = os.path.dirname(os.path.dirname(os.path.abspath(__file__)))
 ALL = ["C%02d" % i for i in range(1, 21)]
 
 CHECKS = {
+    "C15": dict(
+        technique="Lean 4 theorems about the byte-level model of irc.ParseMessage / Message.Bytes and of the handlers' firstLine cut (clean in => one clean line out, <= 510 bytes), regenerated facts pinning both HTTP handlers to firstLine with cutset CR/LF/NUL, correspondence of the whole IRC layer with the real code, line predicate on every delivered line",
+        text="Machine-checked proof that rendering never exceeds 510 bytes, that a message assembled from strings without CR/LF/NUL renders to bytes without CR/LF/NUL (UTF-8 encoding lemma included), that parsing a clean line yields clean prefix/command/parameters (case-mapping tables checked by kernel evaluation), that firstLine returns a clean prefix of its input, and that posted text after cut+parse+render is one clean line; the handlers' use of firstLine and its cutset are re-extracted from the Go source on every run. State-level propagation through all handlers is not yet a theorem (partial): it is covered by the correspondence run plus a line predicate on every output line of every generated history.",
+        design_ref="DESIGN.md §4 C15",
+        note="Trusts: Lean kernel; tools/extract; the pinned sorcix/irc.v2 parse/render model and the handlers are tied by differential runs; JSON decoding yields valid UTF-8.",
+    ),
     "C08": dict(
         technique="Lean 4 invariant proof over a transition system whose atomic steps are the lock regions of outputstream.go, for any number of concurrent GetNext readers and every interleaving; sequential + steered-concurrent (park/burst/cancel) differential runs of the real OutputStream against the model and a sorted-map oracle",
         text="Machine-checked proof, by one inductive invariant over all reachable configurations of the concurrent system (any number of readers, any interleaving of Add/Delete/Get/Interrupt/cancel and reader phases): what GetNext returns is the least stored batch above x at the instant it returns; a reader blocked in Cond.Wait has no stored successor (no lost wake-up); a cancelled, woken reader returns; no step panics; Get refines a plain map. The failed proof of an earlier version exposed a real lost-wake-up defect, since repaired (fix commits listed in known_findings.json).",
